@@ -221,7 +221,8 @@ def _run_oracle(oracle, function):
     p = subprocess.run(cmd, cwd=dst, env=env, capture_output=True, text=True, timeout=1500)
     log = p.stdout + '\n' + p.stderr[-3000:]
     shutil.rmtree(root, ignore_errors=True)
-    mm = re.findall(r'COUNTEREXAMPLE (.*)', log)
+    # only what the test itself printed (stdout, at the start of a line): a compiler diagnostic that echoes a source line is not a finding
+    mm = re.findall(r'^COUNTEREXAMPLE (.*)', p.stdout, re.M)
     # a panic inside the real function on an input satisfying the precondition is a failing input too
     mm += ['panic: ' + re.sub(r'\s+', ' ', x) for x in re.findall(r'panicked at src/[^\n]*\n[^\n]*', log)]
     return (len(mm) > 0), log, (mm[:5] if mm else None)
